@@ -77,6 +77,13 @@ Definition tape_pt (c1 : tensor Z) (modes : list nat) (free : list zmat) (tc : t
     (c : tensor Z) (ms : list nat) (fr : list zmat) : tensor Z * list zmat :=
   if zt_eqb c c1 && nat_list_eqb ms modes && zmats_eqb fr free then (tc, tf) else (mk [] [], []).
 
+(* partial_tucker's REAL main loop around a stubbed svd_interface whose answers (integer matrices, in call order) are on `tape`: the update of
+   position index in iteration it is answer number it * len(modes) + index; the core update is multi_mode_dot(tensor, factors, modes,
+   transpose=True) on the data tensor X; never stops early (tol = 0) *)
+Definition Zhoi (X : tensor Z) (tape : list zmat) (budget : nat) : tensor Z -> list nat -> list zmat -> tensor Z * list zmat :=
+  partial_tucker_model (X := unit) (fun _ _ => tt) (fun it index _ s => nth (it * length (ptf s) + index) tape [])
+    (fun _ modes s => ZmmdT X (ptf s) modes) (fun _ _ => tt) (fun _ _ => false) (fun _ _ _ => tt) budget.
+
 Inductive case :=
 (* initialiser: rank, weights (None = no weights), factors | implementation: factors returned by the initialiser,
    dense tensor of the zero-budget result of the named algorithm *)
@@ -122,7 +129,14 @@ Inductive case :=
            (observed : res (list Z * list zmat * list zmat))
 (* tucker(fixed_factors=<request as a list / tuple / ndarray, or None>): was the fixed-factor branch entered (observed through the modes
    handed to a recording partial_tucker / the all-fixed return), or did the call raise in front of it *)
-| CGate (id : nat) (c : container) (req : option (list Z)) (observed : res bool).
+| CGate (id : nat) (c : container) (req : option (list Z)) (observed : res bool)
+(* partial_tucker(X, rank, modes, init=(c, free), n_iter_max=budget, tol=0) with svd_interface on tape: returned (core, factors) *)
+| CHoi (id : nat) (X : tensor Z) (tape : list zmat) (budget : nat) (c : tensor Z) (modes : list nat) (free : list zmat)
+       (out : tensor Z * list zmat)
+(* tucker(X, rank, init=(core, fs), fixed_factors=fixed, n_iter_max=budget, tol=0) with svd_interface on tape: the whole function around the
+   modelled partial_tucker *)
+| CTuckerHoi (id : nat) (X : tensor Z) (tape : list zmat) (budget : nat) (core : tensor Z) (fs : list zmat) (fixed : list nat)
+             (out : res (tensor Z * list zmat)).
 
 Definition agree (c : case) : bool :=
   match c with
@@ -162,6 +176,11 @@ Definition agree (c : case) : bool :=
                              kind nn init with
          | Ok s => Ok (p2w s, p2f s, p2P s) | Err => Err end) observed
   | CGate _ c req observed => res_eqb Bool.eqb (tucker_gate c req) observed
+  | CHoi _ X tape budget c modes free out =>
+      let r := Zhoi X tape budget c modes free in zt_eqb (fst r) (fst out) && zmats_eqb (snd r) (snd out)
+  | CTuckerHoi _ X tape budget core fs fixed out =>
+      res_eqb (fun x y => zt_eqb (fst x) (fst y) && zmats_eqb (snd x) (snd y))
+              (tucker_fixed 0%Z Z.add Z.mul core fs fixed (Zhoi X tape budget)) out
   | CP2Start _ rank builtin nn init Q Rm observed =>
       res_eqb p2_state_eqb
         (match p2_start 1%Z (fun _ => (Q, Rm)) rank (map (map (Z.max 0))) builtin nn init with
@@ -172,6 +191,7 @@ Definition ident (c : case) : nat :=
   match c with
   | CInit i _ _ _ _ _ | CDense i _ _ _ _ | CTrace i _ _ _ _ _ _ _ _ _ _ | CTuckerTape i _ _ _ _ _ _ _ _ _ | CTuckerLists i _ _ _
   | CTuckerZero i _ _ _ _ | CTuckerDense i _ _ _ | CP2Dense i _ _ _ _ _ _ _ _ | CNtdInit i _ _ _ _
-  | CP2Init i _ _ _ _ _ _ _ _ | CHalsInit i _ _ _ _ _ _ _ | CP2Start i _ _ _ _ _ _ _ | CTraceZ i _ _ _ _ _ _ _ _ | CP2StartK i _ _ _ _ _ _ _ | CGate i _ _ _ => i
+  | CP2Init i _ _ _ _ _ _ _ _ | CHalsInit i _ _ _ _ _ _ _ | CP2Start i _ _ _ _ _ _ _ | CTraceZ i _ _ _ _ _ _ _ _ | CP2StartK i _ _ _ _ _ _ _ | CGate i _ _ _
+  | CHoi i _ _ _ _ _ _ _ | CTuckerHoi i _ _ _ _ _ _ _ => i
   end.
 Definition failing := failing_ids agree ident.
